@@ -230,6 +230,32 @@ def consumed_positions(name, args):
             pos.add(1)
         elif c is False and n == 3:
             pos.add(2)
+    if b == 'SWITCH' and n >= 3 and args[0][0] in ('n', 't', 'b'):
+        # a case key is reached when no earlier key certainly equals the value; an error key that is reached is the result
+        def differs(k):
+            v = args[0]
+            if k[0] not in ('n', 't', 'b'):
+                return None if k[0] != 'e' else True
+            if k[0] != v[0]:
+                return True
+            return (k[1].upper() != v[1].upper()) if k[0] == 't' else k[1] != v[1]
+        p = 1
+        while p + 1 < n:                       # (key, result) pairs; a trailing single argument is the default
+            if args[p][0] == 'e':
+                pos.add(p)
+                break
+            if differs(args[p]) is not True:
+                break
+            p += 2
+    if b == 'IFS':
+        p = 0
+        while p + 1 < n:                       # (condition, result) pairs: a condition is reached when all earlier ones are false
+            if args[p][0] == 'e':
+                pos.add(p)
+                break
+            if truthy(args[p]) is not False:
+                break
+            p += 2
     return {p for p in pos if p < n}
 
 
